@@ -477,7 +477,10 @@ class LoopBase(Task):
             specs.insert(rng.randrange(len(specs) + 1), {"bad": "ndim3"})
         if "singular" in g.sw["faults"] and rng.random() < 0.08:
             specs = [s for s in specs if s.get("t") == self.terms.get("diff")]
-        return {"k": "solve", "a": {"v": v, "terms": specs, "solver": self.solver_mode()}}
+        a = {"v": v, "terms": specs, "solver": self.solver_mode()}
+        if rng.random() < 0.1:
+            a["container"] = "tuple"
+        return {"k": "solve", "a": a}
 
     def transient_op(self, v, m=None):
         g = self.g
@@ -734,6 +737,10 @@ class Editor(Task):
                 return {"k": "bc_edit", "a": {"b": b, "side": side, "coef": "b", "how": "assign",
                                               "val": {"d": "const", "x": 0.0, "scalar": True},
                                               "sl": g.slspec(2)}}
+        if rng.random() < 0.06:
+            return {"k": "bc_edit", "a": {"b": b, "side": side, "coef": "c", "how": "mask",
+                                          "t": g.r(-1.0, 1.0, 2), "x": g.r(-2.0, 2.0, 2),
+                                          "sl": g.slspec(2)}}
         coef = rng.choice(("a", "b", "c", "c"))
         how = rng.choice(("assign", "full", "slice", "item2", "imul"))
         a = {"b": b, "side": side, "coef": coef, "how": how, "sl": g.slspec(2),
@@ -793,8 +800,11 @@ class ValueEditor(Task):
         v = g.pick("v")
         if v is None:
             return []
-        how = rng.choice(("assign", "slice", "slice2", "imul", "update"))
+        how = rng.choice(("assign", "slice", "slice2", "imul", "update", "mask", "fancy"))
         a = {"v": v, "how": how}
+        if how == "mask":
+            a.update({"t": g.r(-0.5, 1.5, 2), "x": g.r(-2.0, 3.0, 2)})
+            return [{"k": "val_edit", "a": a}]
         if how == "imul":
             a["k"] = g.r(0.5, 2.0, 2)
         elif how == "update":
